@@ -59,6 +59,7 @@ use crate::common::logger;
 use crate::common::result::Result;
 use crate::{common::error::Error, proxy::proxy_summary::ProxySummary};
 use proxy_agent_shared::logger::LoggerLevel;
+use proxy_agent_shared::misc_helpers;
 use proxy_agent_shared::proxy_agent_aggregate_status::{
     ModuleState, ProxyAgentDetailStatus, ProxyConnectionSummary,
 };
@@ -613,7 +614,10 @@ impl AgentStatusSharedState {
                 &format!("{:?}", module),
                 logger::AGENT_LOGGER_KEY,
             );
-            message = format!("{}...", &message[0..MAX_STATUS_MESSAGE_LENGTH]);
+            message = format!(
+                "{}...",
+                misc_helpers::truncate_at_char_boundary(&message, MAX_STATUS_MESSAGE_LENGTH)
+            );
         }
 
         ProxyAgentDetailStatus {
